@@ -222,6 +222,18 @@ CLAIMED = {
         note='F14 (degenerate constraints raise IndexError) is modelled as raising: it does not produce a wrong set.',
         technique='Lean 4 proof (real analysis of posynomial normalisation, log-space forms, column reordering) + model/implementation correspondence check',
         design_ref='DESIGN.md 4/C15'),
+    'C06': dict(
+        text='PARTIAL (completeness of AGE certificates beyond circuits is convex duality and is not proved; monotonicity in ell / X is audited). '
+             'Theorems about the semantic AGE certificate (the predicate the compiled rows express, C01): soundness; invariance under '
+             'translation, invertible linear change of variables, positive scaling, exponent shift and re-indexing; larger covers only help and '
+             'dropping a cover index can lose a certificate; circuit completeness with the closed-form circuit number, sharp on the midpoint '
+             'circuit. The real cover helper is compared with the model on circuits and their transformed copies; the real solver is audited: '
+             'feasibility on circuits at 0.5 / 0.98 / 1.02 / 1.5 x circuit number, level-0 bounds vs closed forms, one-negative-term signomials '
+             'over boxes vs rigorous grid + Lipschitz enclosures, bounds under permutation / unimodular change / translation / affine scaling, '
+             'ell 0 vs 1, box vs sub-box.',
+        note='F10 (default heuristic reduction loses exactness over boxes) is a recorded known finding shared with C19.',
+        technique='Lean 4 proof (real analysis of relative-entropy certificates: invariances, circuit number) + model/implementation correspondence of the cover presolve + metamorphic solver audit',
+        design_ref='DESIGN.md 4/C06'),
 }
 
 NOT_YET = 'check not built yet in this session (planned, see DESIGN.md section 6); not claimed until its theorems and correspondence exist'
